@@ -275,7 +275,7 @@ pub fn gen_tag(r: &mut Rng, allow_dirty: bool) -> Tag {
 
 pub fn gen_rate(r: &mut Rng, finite_only: bool) -> f64 {
     match r.below(8) {
-        0 => *r.pick(&[0.0, 1.0, 0.5, 0.1, 0.25, 0.01, 1e-9, 0.999999999, 0.3333333333333333, 1e-300, 5e-324]),
+        0 => *r.pick(&[0.0, 1.0, 1.0, 0.9999999999999999, 1.0000000000000002, 2.0, 100.0, -1.0, 0.5, 0.1, 0.25, 0.01, 1e-9, 0.999999999, 0.3333333333333333, 1e-300, 5e-324]),
         1 if !finite_only => gen_f64_any(r),
         2 => gen_f64_finite(r),
         _ => r.f64_unit(),
